@@ -428,11 +428,12 @@ func (m *model) canon() string {
 // ---------------------------------------------------------------- the real thing
 
 type config struct {
-	IsValue  bool
-	Writable string
-	Lower    bool
-	Initial  map[string]val // collection: initial records
-	Name     string
+	IsValue         bool
+	Writable        string
+	Lower           bool
+	InterceptorLast bool           // the id interceptor is given after the initial records
+	Initial         map[string]val // collection: initial records
+	Name            string
 }
 
 func showMsg(m proto.Message) string {
@@ -468,7 +469,7 @@ func runPath(cfg config, path []op) (key, msg string, finalCanon string) {
 		if cfg.Writable == "a" {
 			opts = append(opts, resource.WithWritablePaths(&T{}, "default_int32"))
 		}
-		if cfg.Lower {
+		if cfg.Lower && !cfg.InterceptorLast {
 			opts = append(opts, resource.WithIDInterceptor(strings.ToLower))
 		}
 		ref := &model{writable: cfg.Writable, lower: cfg.Lower, items: map[string]val{}, isValue: cfg.IsValue}
@@ -494,6 +495,10 @@ func runPath(cfg config, path []op) (key, msg string, finalCanon string) {
 				}
 				ref.items[rid] = v
 				opts = append(opts, resource.WithInitialRecord(id, v.msg()))
+			}
+			if cfg.Lower && cfg.InterceptorLast {
+				// options describe the collection, their order is not part of the description
+				opts = append(opts, resource.WithIDInterceptor(strings.ToLower))
 			}
 			col = resource.NewCollection(opts...)
 			ch := col.Pull(ctx, resource.WithBackpressure(true), resource.WithUpdatesOnly(true))
@@ -770,6 +775,7 @@ func configs() []config {
 		// the id interceptor and id generation together: the first candidate is taken - under the
 		// intercepted (lower-case) form only
 		{Name: "collection/lower-case-ids/initial-record-upper-case", Lower: true, Initial: map[string]val{"A": {3, "init"}}},
+		{Name: "collection/lower-case-ids/initial-record-upper-case/interceptor-option-last", Lower: true, InterceptorLast: true, Initial: map[string]val{"A": {3, "init"}}},
 		{Name: "collection/lower-case-ids/first-generated-id-taken", Lower: true, Initial: map[string]val{strings.ToLower(first): {5, "taken"}}},
 	}
 }
